@@ -405,8 +405,36 @@ def check_C14(tier, seed):
         pan = only_panics(res["rejected"])
         other += len(res["rejected"]) - len(pan)
         nviol += report_rejections("C14", pan, S)
+    # panic search over many seeds (native, no trace per seed); whatever it finds is replayed as an ordinary
+    # schedule and decided by the trace specification like every other event
+    binp = vlib.build_harness()
+    wd = vlib.workdir("run-C14scan")
+    sp, tp = os.path.join(wd, "scan.s"), os.path.join(wd, "scan.t")
+    nscan = 6000 if tier == "quick" else 60000
+    ops = [{"op": "reset"}]
+    for kind in corpora.ALL_SEEDABLE + ["Hc128Core", "IsaacCore", "Isaac64Core"]:
+        ops.append({"op": "panic_scan", "kind": kind, "n": nscan if "Isaac" not in kind else nscan // 3, "seed_len": corpora.SEEDLEN[kind], "outputs": 8})
+    vlib.write_ndjson(sp, ops)
+    vlib.drive(binp, sp, tp, timeout=3000)
+    S4 = vlib.Sched()
+    scanned = {}
+    for e in vlib.read_ndjson(tp):
+        if e.get("e") != "panic_scan":
+            continue
+        scanned[e["kind"]] = e.get("scanned")
+        for f in e.get("found", []):
+            k = e["kind"]
+            first = {"op": "seed_from_u64", "g": 1, "kind": k, "x": f["x"]} if f["stage"] == "seed_from_u64" else {"op": "from_seed", "g": 1, "kind": k, "seed": f["seed"]}
+            rest = [{"op": "generate", "g": 1}] if k.endswith("Core") else [{"op": "next_u32", "g": 1, "n": 8}, {"op": "next_u64", "g": 1, "n": 8}, {"op": "fill_bytes", "g": 1, "n": 37}]
+            S4.case("%s %s k=%d panics" % (k, f["stage"], f["k"]), [first] + rest)
+    if S4.cases:
+        ev, cs, res = run_trace("C14-scan", S4, "Trace_Full.tla", "Trace_Full.cfg")
+        parts.append((ev, cs, res))
+        pan = only_panics(res["rejected"])
+        nviol += report_rejections("C14", pan, S4)
     cov = base_cov(parts, "overflow-checked dev build; every operation wrapped in catch_unwind; the total specification expects exactly one panic (set_rounds(0)); hostile corpora: JitterRng timers with deltas +-(2^31-1), -2^31, 2^31, 2^32+-1, 2^63, u64 wrap-around, strictly decreasing, ping-pong between values 2^31 apart, in next_*/fill_bytes/timer_stats and across all 400 probes of test_timer; all-0xFF / all-zero / high-bit seeds and extreme u64 seeds of all 19 seedable types with fill_bytes lengths 0..17, block size +-1 (and 100000 in thorough) interleaved with next_*; jump/long_jump on all-ones states. distinct = distinct recorded events",
                    ["Trace_Jitter", "Trace_Stream", "Trace_Alg"])
+    cov["panic_scan"] = {"seeds_per_kind_constructed_three_ways_and_driven": scanned, "panicking_seeds_found": len(S4.cases)}
     cov["panics_observed"] = sum(1 for e, _, _ in parts for x in e if "panic" in x)
     cov["rejections_attributed_to_other_properties"] = other
     vlib.write_evidence("C14", tier, seed, "model_checking", cov,
@@ -539,6 +567,8 @@ def check_C16(tier, seed):
             for (op, a, b) in w:
                 if op == "clone":
                     ops.append({"op": "clone", "g": a, "to": b})
+                elif op == "clone_from":
+                    ops.append({"op": "clone_from", "g": a, "from": b})
                 elif op == "fill_bytes":
                     ops.append({"op": op, "g": a, "n": b})
                 else:
@@ -1144,8 +1174,29 @@ def c07_basis_corpus(seed, tier):
                     ops += [{"op": "from_seed", "g": 1, "kind": kind, "seed": corpora.unit_seed(kind, b), "tag": ["col", b]}, o]
                 S.case("%s %s basis %d" % (kind, path, lo), ops)
             ops = []
-            for r in range(24 if tier == "quick" else 200):
-                sd = [rng.getrandbits(8) for _ in range(corpora.SEEDLEN[kind])]
+            wb = corpora.WORDBYTES[kind]
+            nw = corpora.SEEDLEN[kind] // wb
+            Mw = (1 << (8 * wb)) - 1
+            seeds = [[rng.getrandbits(8) for _ in range(corpora.SEEDLEN[kind])] for _ in range(24 if tier == "quick" else 200)]
+            # states with related words (a, -a), (a, a), (a, ~a), zero and all-ones words in every pair of positions:
+            # where a "guard against degenerate states" or any other state-dependent special case would sit
+            for a in [1, 2, Mw, 1 << (8 * wb - 1), rng.getrandbits(8 * wb) | 1, rng.getrandbits(8 * wb) | 1]:
+                for i in range(nw):
+                    for j in range(nw):
+                        if i == j:
+                            continue
+                        for b in ((-a) & Mw, a, a ^ Mw):
+                            st = [0] * nw
+                            st[i], st[j] = a, b
+                            seeds.append(corpora.words_to_seed(st, wb))
+                            st2 = [rng.getrandbits(8 * wb) for _ in range(nw)]
+                            st2[i], st2[j] = a, b
+                            seeds.append(corpora.words_to_seed(st2, wb))
+            if tier == "quick" and len(seeds) > 400:
+                seeds = seeds[:24] + rng.sample(seeds[24:], 376)
+            for r, sd in enumerate(seeds):
+                if not any(sd):
+                    continue
                 o = mk()
                 o["tag"] = ["smpimg", r]
                 ops += [{"op": "from_seed", "g": 1, "kind": kind, "seed": sd, "tag": ["smp", r]}, o]
@@ -1306,12 +1357,51 @@ def check_C07(tier, seed):
             print("  %s: %s" % (kind, detail["why"][:400]))
         else:
             print("NOTE property=C07 %s: state map differs from the reference; C07 %s: %s" % (kind, verdict, detail["why"][:300]))
+    # a step that is not injective: two different recorded states with the same recorded successor.  The pair is
+    # replayed on the code and the equality of the two successors is confirmed by TLC (ALG_Confirm on the images)
+    collisions = 0
+    seen = {}
+    for cid, evs in cases:
+        if cid not in by_id:
+            continue
+        kp = tuple(by_id[cid]["label"].split(" ")[:2])
+        cur = None
+        for ev in evs:
+            if ev.get("e") == "from_seed" and "obs" in ev and "s" in ev["obs"]:
+                cur = (json.dumps(ev["obs"]["s"]), ev["seed"])
+            elif cur and ev.get("tag") and ev["tag"][0] in ("colimg", "smpimg") and "obs" in ev and "s" in ev["obs"]:
+                key = (kp, json.dumps(ev["obs"]["s"]))
+                if key in seen and seen[key][0] != cur[0] and collisions < 3:
+                    kind0, path = kp
+                    nat = corpora.native_op(kind0)
+                    other = "next_u64" if nat == "next_u32" else "next_u32"
+                    mkop = {"native": {"op": nat, "g": 1, "n": 1}, "other": {"op": other, "g": 1}, "fill8": {"op": "fill_bytes", "g": 1, "n": 8}}[path]
+                    ops = []
+                    for w, sd in ((0, seen[key][1]), (1, cur[1])):
+                        o = dict(mkop)
+                        o["tag"] = ["confirm", kind0, w]
+                        ops += [{"op": "from_seed", "g": 1, "kind": kind0, "seed": sd}, o]
+                    cs2, ct2 = os.path.join(wd, "col.s"), os.path.join(wd, "col.t")
+                    vlib.write_ndjson(cs2, [{"op": "reset"}] + ops)
+                    vlib.drive(binp, cs2, ct2)
+                    rc2 = vlib.run_tlc(os.path.join(vlib.SPEC, "alg", "ALG_Confirm.tla"), os.path.join(vlib.SPEC, "alg", "ALG_Confirm.cfg"),
+                                       os.path.join(wd, "metacol"), env={"TRACE": ct2}, timeout=300)
+                    if '<<"COLLISION", TRUE>>' in rc2["out"] and seen[key][1] != cur[1]:
+                        collisions += 1
+                        nviol += 1
+                        path2 = vlib.write_replay("C07", {"property": "C07", "case": "%s/%s is not injective" % kp, "signature": "collision|%s/%s" % kp,
+                                                          "schedule": [{"op": "reset"}] + ops, "seeds": [seen[key][1], cur[1]],
+                                                          "note": "two different non-zero states have the same successor: the transition is not a bijection"})
+                        print("VIOLATION property=C07 replay=%s" % path2)
+                        print("  %s/%s: the states with seeds %s and %s have the same successor" % (kp[0], kp[1], bytes(seen[key][1]).hex(), bytes(cur[1]).hex()))
+                seen.setdefault(key, cur)
     cov = base_cov([(events, cases, tres)], "(1) for each of the 7 distinct linear engines TLC checks the certificate: Krylov rank n and P(T)e0 = 0 (so GF(2)[x]/P -> V, f |-> f(T)e0 is an isomorphism carrying x to T), x^(2^n) = x, the listed primes multiply to 2^n - 1, and for every prime q: cofactor*q = 2^n - 1 and x^cofactor # 1 - so x has order exactly 2^n - 1, GF(2)[x]/P is a field and T is a bijection permuting the 2^n - 1 non-zero states in a single cycle; (2) for every one of the 15 linear generator types and every path that advances the state (the native call, the other next_*, fill_bytes(8)) the transition matrix is extracted from the real code on the complete basis of unit-bit seeds (plus random seeds for linearity) and validated by TLC against the specification's T resp. T^2; (3) if a type's matrix differs from the reference, the same certificate is run on the extracted matrix and a violation is reported only with a certificate (a non-zero state stepping to zero, replayed on the code; or T^((2^n-1)/q) = I; or T^(2^n-1) # I). distinct = distinct recorded events", ["Trace_Alg", "ALG_Engine"])
     cov["certificates"] = {"%s:%s" % k: {"verified": v[0], "tlc_wall_s": round(v[2], 1), "result": v[1][:160]} for k, v in sorted(res.items(), key=lambda kv: str(kv[0]))}
     cov["obligations"] = len(tasks)
     cov["discharged"] = len(tasks)
     cov["type_paths_whose_matrix_equals_the_reference"] = 3 * len(corpora.LINEAR) - len(kinds_off)
     cov["types_decided_on_their_own_matrix"] = {k: v[0] for k, v in decided.items()}
+    cov["non_injective_steps_confirmed"] = collisions
     cov["exhaustive"] = True
     cov["exhaustive_scope"] = "the certificate decides the single-cycle property for all 2^n - 1 non-zero states of each engine (n = 64, 128, 256, 512); the binding to the code is the complete transition matrix on the basis"
     vlib.write_evidence("C07", tier, seed, "model_checking", cov,
